@@ -222,7 +222,7 @@ def real_downstream(case):
         files = ["f%d.bam" % i for i in range(len(case["unmapped"]))]
         sample = _types.SimpleNamespace(out_raw_file=out_raw, file_list=[(f,) for f in files], prefix="s")
         dp = DP.DatasetProcessor.__new__(DP.DatasetProcessor)
-        dp.args = _types.SimpleNamespace(resume=False, threads=1, high_memory=case["high_memory"], keep_tmp=True,
+        dp.args = _types.SimpleNamespace(resume=False, threads=1, high_memory=case["high_memory"], keep_tmp=True, read_group=None,
                                          gunzipped_reference=None,
                                          multimap_strategy=MR.MultimapResolvingStrategy.take_best)
         dp.reference_record_dict = collections.OrderedDict((nm, "A" * ln) for nm, ln in zip(names, case["lengths"]))
